@@ -141,7 +141,7 @@ pub fn apply_file(scratch: &Scratch, f: &FileState) -> Result<(), String> {
                 .collect();
             std::fs::write(&p, bytes).map_err(|e| e.to_string())?
         }
-        FileKind::Content { from, truncate, flip_bit, append } => {
+        FileKind::Content { from, truncate, flip_bit, append, mtime } => {
             let src = if Path::new(from).is_absolute() { PathBuf::from(from) } else { repo_dir().join(from) };
             let mut bytes = std::fs::read(&src).map_err(|e| format!("fixture {}: {e}", src.display()))?;
             if let Some(t) = truncate {
@@ -156,7 +156,14 @@ pub fn apply_file(scratch: &Scratch, f: &FileState) -> Result<(), String> {
             if let Some(a) = append {
                 bytes.extend_from_slice(a.as_bytes());
             }
-            std::fs::write(&p, bytes).map_err(|e| e.to_string())?
+            std::fs::write(&p, bytes).map_err(|e| e.to_string())?;
+            if let Some(t) = mtime {
+                let c = std::ffi::CString::new(p.to_str().unwrap()).unwrap();
+                let times = [libc::timespec { tv_sec: *t, tv_nsec: 0 }, libc::timespec { tv_sec: *t, tv_nsec: 0 }];
+                unsafe {
+                    libc::utimensat(libc::AT_FDCWD, c.as_ptr(), times.as_ptr(), 0);
+                }
+            }
         }
     }
     Ok(())
